@@ -109,7 +109,7 @@ def verify_function(prog, reg, c, labels=None, opts=None, timeout_ms=20000):
     ex.effect = lambda kind, node, p, **kw: _record_effect(ex, kind, node, p, kw)
     ex.cur, ex.cur_short, ex.cur_contract = c.qual, c.short, c
     try:
-        fn, mod = prog.func(c.qual)
+        fn, mod = prog.func(c.qual.split('#')[0])
     except KeyError as e:
         rep.error = f'contract no longer attaches: {e}'; return rep
     argnames = [a.arg for a in fn.args.args]
@@ -128,7 +128,7 @@ def verify_function(prog, reg, c, labels=None, opts=None, timeout_ms=20000):
                 if d is None:
                     rep.error = f'contract no longer attaches: parameter {n} has no shape and no default'; return rep
                 env[n] = ex.lift_const(ast.literal_eval(d))
-        fr = sx.Frame(c.qual, fn, mod, c)
+        fr = sx.Frame(c.qual.split('#')[0], fn, mod, c)
         fr.argns = sx.Namespace(dict(env), p)
         if c.setup: c.setup(S, fr.argns, p, ex)
         pre = c.pre(S, fr.argns) if c.pre else None
